@@ -7,6 +7,44 @@ from .. import explore, qspaces
 from ..core import Check, Space
 
 
+# a wrapper is an expression: binding targets, slices, starred arguments and the pieces of an f-string cannot be
+# wrapped themselves (the expressions inside them can)
+_NOT_WRAPPABLE = (ast.Constant, ast.Slice, ast.Starred, ast.JoinedStr, ast.FormattedValue)
+
+
+def scribble_fresh(tree, not_in):
+    """the caller edits a result it was handed: every scalar field of every node that is NOT also part of
+    `not_in` (no list is touched, so nothing that a shallow copy shares with the argument changes)"""
+    old = {id(n) for n in ast.walk(not_in)}
+    for n in list(ast.walk(tree)):
+        if id(n) in old:
+            continue
+        if isinstance(n, ast.Name):
+            n.id = "SCRIBBLED"
+        elif isinstance(n, ast.Attribute):
+            n.attr = "scribbled"
+        elif isinstance(n, ast.Constant):
+            n.value = "scribbled"
+        elif isinstance(n, ast.arg):
+            n.arg = "scribbled"
+
+
+def scribble_dicts(mds):
+    "the caller edits the dictionaries it was handed, in place, at every level"
+    def rec(v):
+        if isinstance(v, dict):
+            for x in list(v.values()):
+                rec(x)
+            v["scribbled"] = True
+        elif isinstance(v, list):
+            for x in v:
+                rec(x)
+            v.append("scribbled")
+    for d in mds:
+        rec(d)
+    mds.append({"scribbled": 1})
+
+
 def number(tree):
     "pre-order numbering of the wrappable expression nodes of a pristine skeleton"
     nodes = []
@@ -14,7 +52,8 @@ def number(tree):
     def w(n, is_func=False):
         # the callee expression itself cannot be wrapped (MetaData(f, d)(x) is not a query), but the receiver of a
         # method call can: MetaData(seq, d).Select(...)
-        if isinstance(n, ast.expr) and not is_func and not isinstance(n, ast.Constant):
+        if isinstance(n, ast.expr) and not is_func and not isinstance(n, _NOT_WRAPPABLE) and \
+                not isinstance(getattr(n, "ctx", None), ast.Store):
             n._pos = len(nodes)
             nodes.append(n)
         for f, v in ast.iter_fields(n):
@@ -34,7 +73,7 @@ def subtree_positions(n):
 
 
 def dict_ast(d):
-    return ast.Dict([ast.Constant(k) for k in d], [ast.Constant(v) for v in d.values()])
+    return ast.parse(repr(d), mode="eval").body
 
 
 class _Wrap(ast.NodeTransformer):
@@ -73,6 +112,13 @@ SKELETONS_EXTRA = [
     "ds.Select(lambda e: e.jets().Where(lambda j: j.pt() > 1).Count())",
     "ds.SelectMany(lambda e: e.jets()).Select(lambda j: j.pt(k=e.a))",
     "f(x=ds, y=g(z=ds2))",
+    # every syntactic position an expression can sit in: comprehension parts, lambda defaults, slices, starred and
+    # keyword arguments, f-strings, conditional expressions
+    "Select(ds, lambda e: [j.pt for j in e.jets if j.pt > 1 if j.eta < 2])",
+    "Select(ds, lambda e, k=ds2.a, *, m=ds3: e.a + k)",
+    "Select(ds, lambda e: {j.pt: j.eta for j in e.jets if j.ok})",
+    "Select(ds, lambda e: e.jets[1:e.n:2][0] if e.ok else g(*e.xs, **e.kw))",
+    "Select(ds, lambda e: f'{e.a}{e.b:>{e.w}}')",
 ]
 
 
@@ -87,7 +133,12 @@ class C15(Check):
             "wrapper before the wrappers inside its source; remove_empty_metadata must return the skeleton with "
             "exactly the non-empty wrappers in place and leave the heap graph of its argument (node identity, "
             "sharing, fields, annotations) unchanged; what either function returned for one query is unchanged after the "
-            "call for the next query of the enumeration (results belong to the caller). Non-trivial = placement with >= 1 wrapper")
+            "call for the next query of the enumeration (results belong to the caller); the caller then EDITS what it was handed (scalar "
+            "fields of the nodes the result does not share with the argument; the returned dictionaries at every level) and, the "
+            "argument being verified untouched, calls both functions on the same argument a second time: the answers must be right "
+            "again. Skeletons include every syntactic position an expression can sit in (comprehension iterables / filters / keys, "
+            "lambda defaults and keyword-only defaults, slice bounds, starred and keyword arguments, f-string parts, conditional "
+            "expressions); dictionaries carry nested lists / dicts. Non-trivial = placement with >= 1 wrapper")
     assumptions = ["dictionaries are small literal dicts; order among unrelated wrappers is not prescribed"]
 
     def spaces(self, tier):
@@ -115,7 +166,7 @@ class C15(Check):
         for k in range(0, K + 1):
             for positions in itertools.combinations_with_replacement(range(npos), k):
                 for empties in itertools.product((False, True, "same"), repeat=k):
-                    placements = [(p, {} if e is True else ({"same": 1} if e == "same" else {"id": i, "s": f"v{i}"}))
+                    placements = [(p, {} if e is True else ({"same": [1, {"x": [2]}]} if e == "same" else {"id": i, "s": f"v{i}"}))
                                   for i, (p, e) in enumerate(zip(positions, empties))]
                     canon = f"{skel}|{positions}|{empties}"
                     a = build(skel, placements)
@@ -159,6 +210,24 @@ class C15(Check):
                     if explore.heap_key([a], [None], lambda v: "?") != before:
                         res["viol"].append({"kind": "remove-empty-mutated-its-argument", "canon": canon,
                                             "msg": ast.unparse(a)[:200]})
+                    # ---- the caller edits what it was handed (fresh nodes / the dictionaries); the argument is
+                    # verified untouched by that, and a second call on the SAME argument must give the right answer again
+                    scribble_fresh(cleaned, a)
+                    scribble_fresh(stripped, a)
+                    scribble_dicts(mds)
+                    if explore.heap_key([a], [None], lambda v: "?") == before:
+                        try:
+                            cleaned2 = remove_empty_metadata(a)
+                            if ast.dump(cleaned2) != want_clean:
+                                res["viol"].append({"kind": "remove-empty-second-call-on-same-argument-differs", "canon": canon,
+                                                    "msg": f"{ast.unparse(cleaned2)[:200]}"})
+                            stripped2, mds2 = extract_metadata(copy.deepcopy(a))
+                            if ast.dump(stripped2) != want_plain or sorted(map(repr, mds2)) != sorted(map(repr, exp)):
+                                res["viol"].append({"kind": "extract-second-call-differs", "canon": canon,
+                                                    "msg": f"{ast.unparse(stripped2)[:120]} {mds2}"})
+                            cleaned, stripped, mds = cleaned2, stripped2, mds2
+                        except Exception as e:
+                            res["viol"].append({"kind": f"second-call-raised:{type(e).__name__}", "canon": canon, "msg": str(e)[:150]})
                     # ---- results handed out earlier are the caller's: later calls must not change them
                     if held is not None:
                         h_canon, h_stripped, h_mds, h_cleaned, h_snap = held
